@@ -356,7 +356,9 @@ type altT struct {
 }
 
 // succ returns the default event of the current state and the alternatives.
-func (r *runner) succ() (def *Ev, alts []altT, v *viol) {
+// used is the number of deviations the trace already contains: the "all batch
+// sizes" regime of the item stream applies to traces without other deviations.
+func (r *runner) succ(used int) (def *Ev, alts []altT, v *viol) {
 	m, bc, c := r.m, r.n.BC, r.c
 	tip := c.src.tip
 	pr := c.prof
@@ -427,8 +429,8 @@ func (r *runner) succ() (def *Ev, alts []altT, v *viol) {
 		}
 		rem := len(c.items) - pos
 		if rem == 0 {
-			if r.redone && r.dirty == 0 {
-				return nil, nil, &viol{Oracle: "stuck", What: "all storage items were delivered (again, in order, unmodified) and the module still needs storage data"}
+			if r.dirty == 0 {
+				return nil, nil, &viol{Oracle: "stuck", What: "all storage items were delivered in key order, unmodified, and the module still needs storage data"}
 			}
 			def = &Ev{K: "items", H: "redo"}
 			break
@@ -443,7 +445,7 @@ func (r *runner) succ() (def *Ev, alts []altT, v *viol) {
 				continue
 			}
 			cost := 1
-			if pr.ItemsFree {
+			if pr.ItemsFree && used == 0 {
 				cost = 0
 			}
 			alts = append(alts, altT{Ev{K: "items", N: k}, cost})
